@@ -253,6 +253,9 @@ def run(tier):
             c.finding("c02:query-kind:%s" % x["qq"]["form"], "the query `%s` is handed to clients as a %s tree (first operand %s); its form prescribes %s%s" % (
                 rt["text"], tr.get("k"), kids[:1], x["root"], " over " + x["child"] if x["child"] else ""), {"kind": "query", "text": rt["text"], "form": x["qq"], "tree": tr})
     c.cov["query_forms_with_kind_checked"] = n_q
+    # literals at the scanner: every digit string / floating shape up to a bound (Lex.tla's NatTok on the extracted rules; the value the real scanner hands to the parser)
+    import lexconf
+    n_q += lexconf.run(c, quick, "C02", only=("numbers",))
     c.cov["traces_validated_against_impl"] = n_cb + n_tree + n_ctx + n_q
     c.cov["evaluations"] = n_cb + n_tree + n_ctx + len(lit_exprs)
     c.cov["distinct_nontrivial"] = len([e for e in univ if len(sig(e["t"])) > 12])
